@@ -446,3 +446,114 @@ def run_loop_index(P, rep, rule="R-LOOPIDX"):
                 rep.viol(rule, site, P.where(fn, t["line"]), p)
         else:
             rep.ok(rule, site, P.where(fn, t["line"]), "%s::new(enumerate index, selected.len()) inside a forward Enumerate<IntoIter> loop" % obj)
+
+
+# ---------------------------------------------------------------------------------------
+# R-ARGFLOW: which field of the construct feeds which parameter
+
+def arg_fields(P, fn, t, k):
+    """Names of the fields of `self` that argument k of call t (transitively) derives from."""
+    from origins import SelfOrigins, backward_slice
+    from r_fwd import field_names
+    names = field_names(P, fn)
+    so = SelfOrigins(P, fn)
+    ol = op_local(t["args"][k]) if len(t["args"]) > k else None
+    if not ol:
+        return set(), t["args"][k][1].get("val") if len(t["args"]) > k and t["args"][k][0] == "k" else None
+    locs, calls = backward_slice(fn, ol[0])
+    out = set()
+    for l in locs:
+        o = so.org.get(l)
+        if o:
+            out.add(names[o[0]] if o[0] < len(names) else "#%d" % o[0])
+    # fields read directly in statements defining those locals
+    for b in fn.blocks:
+        for st in b["s"]:
+            if st[0] == "a" and st[1][0] in locs:
+                rv = st[2]
+                pl = rv.get("p") or (rv["o"][1] if "o" in rv and rv["o"][0] in ("c", "m") else None)
+                if pl:
+                    o = so.place_origin(pl)
+                    if o:
+                        out.add(names[o[0]] if o[0] < len(names) else "#%d" % o[0])
+    return out, None
+
+
+def run_argflow(P, rep, rule="R-ARGFLOW"):
+    FB = "liquid_lib::stdlib::blocks::for_block::"
+    R = " as liquid_core::runtime::renderable::Renderable>::render_to"
+    specs = [
+        # (fn key, callee suffix, {arg index: (must include field, must not include fields) | ("const", value)})
+        ("<" + FB + "For" + R, "for_block::iter_array", {1: ("limit", {"offset"}), 2: ("offset", {"limit"}), 3: ("reversed", set())}),
+        ("<" + FB + "TableRow" + R, "for_block::iter_array", {1: ("limit", {"offset", "cols"}), 2: ("offset", {"limit", "cols"}), 3: ("const", 0)}),
+    ]
+    for key, callee, args in specs:
+        fn = P.fn_by_key(key)
+        cs = [t for bi, t in P.calls(fn) if t.get("f") and t["f"]["id"].endswith(callee)]
+        site = key.split(" as ")[0].rsplit("::", 1)[-1] + " -> " + callee.rsplit("::", 1)[-1]
+        if len(cs) != 1:
+            rep.viol(rule, site, P.where(fn), "expected one call of %s, found %d" % (callee, len(cs)))
+            continue
+        probs = []
+        for k, spec in sorted(args.items()):
+            flds, cval = arg_fields(P, fn, cs[0], k)
+            if spec[0] == "const":
+                if cval != spec[1]:
+                    probs.append("argument %d must be the constant %s" % (k, spec[1]))
+                continue
+            need, forbid = spec
+            if need not in flds:
+                probs.append("argument %d does not come from self.%s (comes from %s)" % (k, need, sorted(flds)))
+            if flds & forbid:
+                probs.append("argument %d is fed by self.%s" % (k, sorted(flds & forbid)))
+        if probs:
+            for p in probs:
+                rep.viol(rule, site, P.where(fn, cs[0]["line"]), p)
+        else:
+            rep.ok(rule, site, P.where(fn, cs[0]["line"]), "limit, offset, reversed reach their own parameters")
+    # scope contents: which names a loop / partial scope defines
+    def str_keys(fn):
+        ks = []
+        for bi, t in P.calls(fn):
+            f = t.get("f")
+            if f and f["id"].rsplit("::", 1)[1] == "insert" and "HashMap" in f["name"]:
+                ks.append(t)
+        return ks
+    import r_table
+    for key, want in (("<" + FB + "For" + R, {"forloop"}), ("<" + FB + "TableRow" + R, {"tablerow"}),
+                      ("<liquid_lib::stdlib::tags::render_tag::Render" + R, {"forloop"})):
+        fn = P.fn_by_key(key)
+        consts = set(r_table.str_consts(P, fn, with_promoted=False)) & {"forloop", "tablerow", "parentloop", "include"}
+        site = key.split(" as ")[0].rsplit("::", 1)[-1] + " scope names"
+        if not want <= consts or (consts - want - {"parentloop"}):
+            rep.viol(rule, site, P.where(fn), "the per-iteration scope defines %s; expected %s" % (sorted(consts), sorted(want)))
+        else:
+            rep.ok(rule, site, P.where(fn), "defines %s plus the loop variable" % sorted(want))
+    # unless = negated if: Conditional.mode is false for unless, true for if
+    IB = "liquid_lib::stdlib::blocks::if_block::"
+    adt = P.adts.get(IB + "Conditional")
+    if adt is None:
+        rep.anchor_missing(rule, "Conditional")
+        return
+    fnames = [f["name"] for f in adt["variants"][0]["fields"]]
+    mi = fnames.index("mode") if "mode" in fnames else None
+    modes = {}
+    for fn in P.fns.values():
+        if not fn.id.startswith(IB) or fn.expn:
+            continue
+        for b in fn.blocks:
+            for st in b["s"]:
+                if st[0] == "a" and st[2]["k"] == "agg" and st[2].get("id") == IB + "Conditional" and mi is not None:
+                    op = st[2]["ops"][mi]
+                    v = op[1].get("val") if op[0] == "k" else "param"
+                    modes.setdefault(fn.key, set()).add(v)
+    unless = [v for k, v in modes.items() if "UnlessBlock" in k]
+    if unless and all(v == {0} for v in unless):
+        rep.ok(rule, "unless mode", "-", "UnlessBlock builds Conditional { mode: false }")
+    else:
+        rep.viol(rule, "unless mode", "-", "UnlessBlock builds Conditional with mode %s; unless must be the negation of if (mode false)" % unless)
+    ifm = [v for k, v in modes.items() if "parse_if" in k or "IfBlock" in k]
+    if ifm and all(v == {1} for v in ifm):
+        rep.ok(rule, "if mode", "-", "if/elsif build Conditional { mode: true }")
+    else:
+        rep.viol(rule, "if mode", "-", "if builds Conditional with mode %s" % ifm)
